@@ -24,7 +24,7 @@ ASSUMPTIONS = ['request paths are canonical and patterns are leaves, so no slash
 REQUIRED_REACH = ['outcome:answered', 'outcome:404', 'outcome:405', 'outcome:fellthrough-then-answered',
                   'outcome:fellthrough-to-last-error', 'outcome:500', 'built-by:add', 'built-by:list',
                   'head-on-get-route', 'lowercase-method', 'unknown-method', 'allow-header-checked',
-                  'add:negative-index', 'add:overshooting-index']
+                  'add:negative-index', 'add:overshooting-index', 'path-outside-ascii']
 PATTERNS = ['/a', '/a/<x>', '/<x>', '/<x>/<y>', '/a/<n:int>', '/<p*>', '/b', '/a/b']
 PATTERNS_SMALL = ['/a', '/a/<x>', '/<x>', '/<p*>']
 METHOD_SETS = [None, ['GET'], ['POST'], ['GET', 'POST'], ['PUT', 'DELETE']]
@@ -32,6 +32,8 @@ METHOD_SETS_SMALL = [None, ['GET'], ['POST', 'PUT']]
 BEHS = list(md.BEHAVIOURS)
 BEHS_SMALL = ['ok', 'raise_403', 'raise_nb_404', 'return_nb_403', 'uncaught']
 PATHS = ['/a', '/a/b', '/a/5', '/b', '/zz', '/a/b/c', '/', '/x/y', '/a/-3', '/a/x', '/zz/a', '/a/b/c/d/e']
+# paths outside ASCII (random tables only): a segment is a segment whatever its script
+PATHS_TEXT = ['/a/caf\u00e9', '/\u65e5\u672c', '/a/\u00fc\u00f1/x', '/zz/\u00e9', '/\u00c3\u00a9', '/a/e\u0301']
 METHODS = ['GET', 'HEAD', 'POST', 'PUT', 'DELETE', 'OPTIONS', 'PATCH', 'get', 'FOO']
 NSHARDS = 16
 
@@ -195,7 +197,8 @@ def run_shard(sh, spec):
         for _ in range(spec['n']):
             table = random_table(rng)
             how = rng.pick(['list', 'add', 'add'])
-            reqs = [(rng.pick(PATHS), rng.pick(METHODS)) for _ in range(12)]
+            reqs = [(rng.pick(PATHS), rng.pick(METHODS)) for _ in range(12)] + [(rng.pick(PATHS_TEXT), rng.pick(METHODS)) for _ in range(2)]
+            sh.hit('path-outside-ascii', 2)
             check_table(sh, table, how, rng, reqs, 'random-%d-routes-%s' % (len(table), how))
 
 
